@@ -1,6 +1,10 @@
 use std::{env, fs::File, io::Write, path::Path};
 
 fn main() {
+    // cfg names used by the verification hooks (src/verif_hooks.rs); off by default
+    println!("cargo:rustc-check-cfg=cfg(hbs_lms_verif)");
+    println!("cargo:rustc-check-cfg=cfg(hbs_lms_verif_shuttle)");
+
     let out_dir = env::var("OUT_DIR").expect("No out dir");
     let dest_path = Path::new(&out_dir).join("constants.rs");
     let mut f = File::create(dest_path).expect("Could not create file");
